@@ -245,7 +245,15 @@ impl Phase for RandomSeq {
                 2 => Ast::Read("a".into()),
                 3 | 4 => Ast::Assign("=", "x".into(), Box::new(Ast::Const(RV::Int(*k)))),
                 5 => Ast::Call("t".into(), Box::new(Ast::Const(RV::Int(*k)))),
-                6 => Ast::Assign("+=", "x".into(), Box::new(Ast::Call("t".into(), Box::new(Ast::Const(RV::Int(*k)))))),
+                6 => {
+                    if *k % 3 == 0 {
+                        // overwriting 0.0 with -0.0 (and back) is an overwrite like any other
+                        let z = Ast::Const(RV::Float(0.0));
+                        Ast::Assign("=", "z".into(), Box::new(if *k % 2 == 0 { z } else { Ast::Un("neg", Box::new(z)) }))
+                    } else {
+                        Ast::Assign("+=", "x".into(), Box::new(Ast::Call("t".into(), Box::new(Ast::Const(RV::Int(*k))))))
+                    }
+                },
                 7 => Ast::Bin("+", Box::new(Ast::Read("x".into())), Box::new(Ast::Const(RV::Int(*k)))),
                 _ => sequence(r, k, depth - 1),
             }
@@ -294,6 +302,12 @@ impl Phase for RandomSeq {
         let toks = render_ast(&ast, mode, Some(r), true);
         let src = render_spaced(&toks);
         judge_and_run(out, &toks, &src, false);
+        // the same sequence with Unicode whitespace / comments between its separators
+        if r.chance(1, 4) {
+            if let Some(planned) = gen::render_with_plan(&toks, r, true) {
+                judge_and_run(out, &toks, &planned, false);
+            }
+        }
         let _ = api::show_vars;
     }
 }
